@@ -90,7 +90,7 @@ func (c Config) chanPrio(ch int) int {
 	return 0
 }
 
-func newSimple(t *testing.T, cfg Config) *srun {
+func newSimple(t *testing.T, cfg Config, precancel bool) *srun {
 	r := &srun{cfg: cfg, ver: cfg.Ver, ch: map[int]chan int{}, closed: map[int]bool{}, next: map[int]int{}, gates: map[int]chan struct{}{}}
 	inputs := map[uint]<-chan int{}
 	for _, p := range cfg.Prios {
@@ -107,6 +107,11 @@ func newSimple(t *testing.T, cfg Config) *srun {
 	v1.VerifHook = func(ev v1.VerifEvent) { count(ev.Ev) }
 	priority.VerifHook = func(ev priority.VerifEvent) { count(ev.Ev) }
 	defer func() { v1.VerifHook, priority.VerifHook = nil, nil }()
+	if precancel && cfg.Ver == 1 { // the context handed to the constructor is cancelled already: termination from point zero
+		r.cancelReq = true
+		r.emit(obs{E: "Cancel"})
+		r.cancel()
+	}
 	if cfg.Ver == 1 {
 		s, err := v1.NewSimple(v1.SimpleOpts[int]{Ctx: r.ctx, Divider: dividerV1(cfg.Div), Handle: r.handle, HandlersQuantity: cfg.H, Inputs: inputs})
 		if err != nil {
@@ -388,7 +393,7 @@ func TestRecordSimple(t *testing.T) {
 		marker.Store(string(m))
 		synctest.Test(t, func(t *testing.T) {
 			rnd := rand.New(rand.NewSource(seed))
-			r := newSimple(t, cfg)
+			r := newSimple(t, cfg, cfg.Cancel && i%9 == 4)
 			var terms []string
 			if cfg.Ver == 1 {
 				if cfg.Stop {
